@@ -84,6 +84,20 @@ theorem failed_write_untouched (hw : Refines w img) (buf : Bytes) {e : WriteErro
   | err e' => rw [writeInto_err hs]
   | panic => exact absurd hs hw.noPanic
 
+/-- C17 (the `rewrite_same` observation): writing the same packet again into the same buffer, after
+    the caller changed any of the `n` bytes it had received, gives the same buffer and the same
+    result: nothing of what a buffer held survives in the bytes written, and no write depends on
+    an earlier one. -/
+theorem write_again (hw : Refines w img) {n : Nat} (hs : w.calcSize = .ok n) (buf buf' : Bytes)
+    (hb : n ≤ buf.length) (hl : buf'.length = buf.length) (hd : buf'.drop n = buf.drop n) :
+    w.writeInto buf' = w.writeInto buf := by
+  rw [writeInto_ok hw hs buf hb, writeInto_ok hw hs buf' (by omega), hd]
+
+/-- the `interleave` observation: once the size is known to be `n`, the unchecked writer fills a
+    buffer of exactly `n` bytes with the image, whatever was sized or written in between. -/
+theorem write_unchecked_exact (hw : Refines w img) {n : Nat} (hs : w.calcSize = .ok n) (buf : Bytes)
+    (hb : buf.length = n) : w.write buf = .ok (img, n) := (hw.exact n hs).2 buf hb
+
 /-- C06: the buffer keeps its length. -/
 theorem length_preserved (hw : Refines w img) (buf : Bytes) : ((w.writeInto buf).1).length = buf.length := by
   cases hs : w.calcSize with
